@@ -315,6 +315,12 @@ namespace
             };
         };
 
+        if (right.data<d_code, instruction_set>().empty())
+        { // An empty condition can never become true, and a frame without instructions would restart itself
+          // inside frame::next forever without handing control back to the runtime.
+            runtime.__logmsg(logmessage::runtime::ConditionEmpty(runtime.context_active().current_frame().diag_info_from_position()));
+            return {};
+        }
         frame f(runtime.default_value_scope(), right.data<d_code, instruction_set>(), std::make_shared<behavior_waituntil_exit>());
         runtime.context_active().push_frame(f);
         return {};
@@ -528,6 +534,11 @@ namespace
             {
                 return {};
             }
+        }
+        if (right.data<d_code, instruction_set>().empty())
+        { // Nothing to execute. A frame without instructions would restart itself inside frame::next
+          // without ever handing control back to the runtime (no deadline, no scheduling).
+            return {};
         }
         frame f(runtime.default_value_scope(), right.data<d_code, instruction_set>(), std::make_shared<behavior_for_exit>(fordata));
         f[fordata->variable()] = fordata->from();
